@@ -130,29 +130,69 @@ class IngestWorld(object):
       # file-system fault seam: the list file vanishes between exists() and getmtime()
       self.fs_faults = set((int(k), n) for k, n in self.plan.get('fs_faults', []))
       rl.os = _OsShim(self)
+      # ... and: the file is saved again while the daemon is reading it (the new content
+      # appears, with a newer mtime, the moment the daemon has read the last line)
+      self.saves = dict(((int(k), n), text) for k, n, text in self.plan.get('save_during_read', []))
+      self.pre_save = {}
+      me = self
+
+      class Reading(object):
+        def __init__(self, f, key):
+          self.f, self.key = f, key
+
+        def __iter__(self):
+          return self
+
+        def __next__(self):
+          try:
+            return next(self.f)
+          except StopIteration:
+            me.save_now(self.key)
+            raise
+
+      def sim_open(path, *a, **kw):
+        f = open(path, *a, **kw)
+        k = int(round((me.r.seconds() - me.t0) / 10.0))
+        for name, lp in me.list_paths.items():
+          if lp == path and (k, name) in me.saves and (k, name) not in me.pre_save:
+            return Reading(f, (k, name))
+        return f
+      rl.open = sim_open
+
+  def save_now(self, key):
+    from . import boot
+    name = key[1]
+    path = self.list_paths[name]
+    old_m = os.path.getmtime(path)
+    with open(path, encoding='utf-8') as f:
+      self.pre_save[key] = (f.read(), old_m)
+    boot.write_file(name + '.conf', self.saves[key], max(int(self.r.seconds()) + 1, int(old_m) + 1))
+    self.ctx.fault('list_file_saved_while_being_read')
 
   def ref_list_tick(self):
     k = int(round((self.r.seconds() - self.t0) / 10.0))
     for name, lst in self.list_objs.items():
       if (k, name) in self.fs_faults and os.path.exists(self.list_paths[name]):
         continue          # the file vanished while it was being re-read: nothing changes
-      self.snapshot_list(name, lst)
+      # a save that landed while the daemon was reading at this tick: what was read (and
+      # hence is in force until the next tick) is the content from before the save
+      self.snapshot_list(name, lst, override=self.pre_save.get((k, name)))
     self.r.callLater(10.0, self.ref_list_tick)
 
-  def snapshot_list(self, name, lst, initial=False):
+  def snapshot_list(self, name, lst, initial=False, override=None):
     """Reference view of a list file as of a reload the timer really performed:
     re-read the file ourselves with the documented semantics."""
     path = self.list_paths[name]
     pats = []
     if os.path.exists(path):
-      mtime = os.path.getmtime(path)
+      mtime = override[1] if override else os.path.getmtime(path)
       key = (name, 'mtime')
       last = getattr(self, '_mt', {}).get(name, 0.0)
       if mtime <= last and not initial:
         return
       self._mt = getattr(self, '_mt', {})
       self._mt[name] = mtime
-      for line in open(path, encoding='utf-8'):
+      for line in (override[0].splitlines(True) if override else open(path, encoding='utf-8')):
         p = line.strip()
         if line.startswith('#') or not p:
           continue
@@ -190,7 +230,7 @@ class IngestWorld(object):
     if v != v:
       return None
     if ts == -1:
-      ts = self.r.seconds()
+      ts = self.w.simtime.time()          # the wall clock (may have been stepped)
       self.ctx.probe('timestamp_minus_one')
     res = s.MIN_TIMESTAMP_RESOLUTION
     if res:
@@ -470,6 +510,10 @@ class IngestWorld(object):
       elif k == 'advance':
         self.r.advance(step[1])
         ctx.log.add('advance', step[1])
+      elif k == 'walljump':
+        # the wall clock is stepped (NTP, operator); timers run on the monotonic clock
+        self.w.simtime.offset += step[1]
+        ctx.fault('wall_clock_step_' + ('forward' if step[1] > 0 else 'back'))
       elif k == 'file':
         from . import boot
         # mtime: the next whole second (default), or the exact (sub-second) instant
